@@ -8,6 +8,8 @@ open SH SH.Ingest
 structure St where
   cfg : Cfg
   store : Store
+  /-- the same events on an agent with Config.LegacyApplyValues -/
+  storeL : Store
 
 def initCfg : Cfg :=
   { nShards := 1, now := 0, mapping := [],
@@ -83,15 +85,15 @@ def showMV (m : MV) : String :=
 def showKey (it : Item) : String :=
   let tags := (it.ktags.filter (fun p => p.2.1 != 0)).map (fun p => s!"{p.1}:{p.2.1}")
   let stags := (it.ktags.filter (fun p => p.2.2 != "-")).map (fun p => s!"{p.1}:{p.2.2}")
-  s!"row sh={it.shard} m={it.metric} ts={it.ts} tags={joinOr tags} stags={joinOr stags}"
+  s!"sh={it.shard} m={it.metric} ts={it.ts} tags={joinOr tags} stags={joinOr stags}"
 
 def showTop (t : Int × Str × MV) : String := if t.1 != 0 then s!"I{t.1}" else s!"S{t.2.1}"
 
-def itemRows (it : Item) : List String :=
-  s!"{showKey it} top=T {showMV it.tail}" :: it.top.map (fun t => s!"{showKey it} top={showTop t} {showMV t.2.2}")
+def itemRows (pfx : String) (it : Item) : List String :=
+  s!"{pfx} {showKey it} top=T {showMV it.tail}" :: it.top.map (fun t => s!"{pfx} {showKey it} top={showTop t} {showMV t.2.2}")
 
-def storeRows (st : Store) : List String :=
-  ((st.flatMap itemRows).toArray.qsort (· < ·)).toList
+def storeRows (pfx : String) (st : Store) : List String :=
+  ((st.flatMap (itemRows pfx)).toArray.qsort (· < ·)).toList
 
 def step (s : St) (toks : List String) : St × List String :=
   match toks with
@@ -113,9 +115,10 @@ def step (s : St) (toks : List String) : St × List String :=
     match parseEvent? rest with
     | some e =>
       let st' := applyEventH s.cfg s.store e
-      ({ s with store := st' }, storeRows st')
+      let stL := applyEventH { s.cfg with legacy := true } s.storeL e
+      ({ s with store := st', storeL := stL }, storeRows "row" st' ++ storeRows "lrow" stL)
     | none => (s, ["bad-op"])
   | _ => (s, ["bad-op"])
 
 def main : IO Unit :=
-  Driver.run { init := { cfg := initCfg, store := [] }, step := step }
+  Driver.run { init := { cfg := initCfg, store := [], storeL := [] }, step := step }
